@@ -646,7 +646,10 @@ def run(ctx):
             if pr["outcome"] == "ok":
                 st["leaves_checked"] += 1
                 shifted = [[x[2][0][0], x[1], x[2][0][1]] for x in calls if len(x[2]) == 1 and x[2][0][0] != stop]
-                if shifted != pr["leaves"]:
+                # consume_input off: the last lookahead may stay unshifted (parse ends through the STOP fallback)
+                lv = pr["leaves"]
+                ok = shifted == lv or (not c["consume"] and shifted[:len(lv)] == lv and len(shifted) == len(lv) + 1)
+                if not ok:
                     ctx.violation("the leaves of the tree %r are not the tokens chosen %r"
                                   % ([(names[t], s, l) for t, s, l in pr["leaves"]],
                                      [(names[t], s, l) for t, s, l in shifted]), base, key="leaves")
